@@ -835,7 +835,7 @@ impl Emitter {
     let dest = map_register_16(reg);
     let mut len = emit_pop(dest, self.mem as usize, exec);
     len += emit_ip_increment(ip_increment, &mut exec[len..]);
-    len + emit_cycle_increment(4, &mut exec[len..])
+    len + emit_cycle_increment(3, &mut exec[len..])
   }
 
   pub fn encode_add_sp(&self, offset: i8, ip_increment: usize, exec: &mut [u8]) -> usize {
